@@ -10,7 +10,7 @@ export GOFLAGS=-mod=mod GOPROXY=off GOSUMDB=off GOTOOLCHAIN=local
 cd "$here" || exit 3
 mkdir -p bin && go build -o bin/ ./cmd/... || exit 3
 det=0; tot=0
-for d in "$here"/seeded/*/; do
+for d in "$here"/seeded/*${SEED_FILTER:-}*/; do
   s=$(basename "$d")
   prop=$(python3 -c "import json;print(json.load(open('$d/meta.json'))['property'])")
   w=$(mktemp -d /tmp/seedmatrix.XXXXXX)
